@@ -1582,8 +1582,10 @@ class C10(HistProp):
             "must equal the one before the call and the object must still match a fresh parse; no successful insert may exceed 8192 bytes. "
             "Non-trivial: history contains a failing call; distinct = distinct history.")
     strength = ("PARTIAL: proved: C10_insert_bound (a successful insert never yields more than 8192 bytes, whatever the starting length, and "
-                "the size test cannot underflow) and C10_insert_count_before_bytes (when the count check fails no byte has moved). Atomicity "
-                "of every failing operation (C10_full_statement) is decided each run by the correspondence and the before/after oracle.")
+                "the size test cannot underflow), C10_insert_core_atomic (when the size or count check fails no byte has moved) and "
+                "C10_failed_insert_keeps_message (a failing insert_rr on a freshly parsed packet leaves exactly its decompressed form, "
+                "accepted and reading as the same message; cursor untouched). Atomicity of the other failing operations is decided each "
+                "run by the correspondence and the before/after oracle.")
 
     def gen(self, rng, tier):
         n = 400 if tier == "quick" else 10000
